@@ -740,11 +740,32 @@ func (f *FeaturesByID) fillPathSegments(point b6.FeatureID, path b6.FeatureID, s
 				}
 			}
 			if pf != nil {
-				if previous != position {
-					segments = append(segments, b6.Segment{Feature: pf, First: position, Last: previous})
+				last := p.PathLen(fb.Strings) - 1
+				closedAtOrigin := false
+				if position == 0 && last > 0 {
+					if id, ok := p.Reference(last, fb.Strings); ok {
+						_, ns := id.TypeAndNamespace.Split()
+						closedAtOrigin = id.Value == point.Value && fb.NamespaceTable.Decode(ns) == point.Namespace
+					}
 				}
-				if next != position {
-					segments = append(segments, b6.Segment{Feature: pf, First: position, Last: next})
+				if closedAtOrigin {
+					// Like the in-memory worlds, leave the point that closes a
+					// path from the path's last index, backwards.
+					previous = 0
+					for i := last - 1; i > 0; i-- {
+						if id, ok := p.Reference(i, fb.Strings); ok && f.isGraphNode(fb, id) {
+							previous = i
+							break
+						}
+					}
+					segments = append(segments, b6.Segment{Feature: pf, First: last, Last: previous})
+				} else {
+					if previous != position {
+						segments = append(segments, b6.Segment{Feature: pf, First: position, Last: previous})
+					}
+					if next != position {
+						segments = append(segments, b6.Segment{Feature: pf, First: position, Last: next})
+					}
 				}
 			}
 			break
